@@ -307,6 +307,9 @@ func genC16(g *gen, tier string) *Scenario {
 	if g.pct(50) {
 		sc.Sim.AtomicFiles = []string{"counter.go"}
 	}
+	// (entry pool off: with the pool on the unchanged tree itself drifts - a recycled entry can receive an
+	// event of its previous life, e.g. a region size of -1 with no entries, about once in 5000 pool runs -
+	// which the README documents and C02 excludes; see DESIGN 7.6, C16-m2)
 	sc.Cache.Parallelism = pick(g, 1, 2, 4, 8)
 	p := mixParams{clients: [2]int{2, 5}, ops: [2]int{4, 20}, keys: g.rng(2, 10), setPct: 35, getPct: 45, delPct: 8, rangePct: 5, viewPct: 4, sleepPct: 3,
 		ttlPct: pick(g, 0, 20), ttls: []int64{500 * ms, 2 * sec, 100 * sec}, costMax: 2, sleepMax: 1200 * ms, rangeStopPct: 50}
